@@ -16,6 +16,13 @@ Print Assumptions C05_wrapper_orders.
 
 (* the backward of the adjoint operator is the operator: (A^H)^H = A, in particular AdjointGridSample.backward w.r.t. y
    is the forward grid sampler *)
+(* real input: the wrapper returns the real part of A^H g, which is the gradient with respect to a real x of the real loss Re<g, A x>:
+   <A x, g> + conj<A x, g> = <x, A^H g + conj(A^H g)> for every adjoint pair A and every real x (a + conj a = 2 Re a) *)
+Theorem C05_real_input_gradient : forall (R : StarRing) (A : linop R) (x g : nat -> R), adjoint_pair A -> (forall j, kconj (x j) = x j) ->
+  (inner (ran A) (fwd A x) g + kconj (inner (ran A) (fwd A x) g) = inner (dom A) x (fun j => adj A g j + kconj (adj A g j)))%K.
+Proof. exact real_input_gradient. Qed.
+Print Assumptions C05_real_input_gradient.
+
 Theorem C05_adjoint_of_adjoint : forall (R : StarRing) (A : linop R), adjoint_pair A -> adjoint_pair (adjop A) /\ adj (adjop A) = fwd A.
 Proof. intros R A H. split; [apply adjop_adjoint; exact H|reflexivity]. Qed.
 Print Assumptions C05_adjoint_of_adjoint.
